@@ -53,12 +53,19 @@ PIN_SPEC = {   # computed from /repo/src
     # route_path, resource_path, static_path, current_route_path, encode.url_quote / quote_plus / urlencode
     'pyramid/url.py': ['URLMethodsMixin._quoted_script_name', 'URLMethodsMixin.route_url',
                        'URLMethodsMixin.resource_url', 'URLMethodsMixin.static_url',
-                       'URLMethodsMixin.current_route_url', '_join_elements', '_join_quoted_elements'],
+                       'URLMethodsMixin.current_route_url', '_join_elements', '_join_quoted_elements',
+                       # the function forms pyramid.url.route_url(route_name, request, ..) etc. (exercised: case['via'])
+                       'route_url', 'route_path', 'resource_url', 'static_url', 'static_path', 'current_route_url',
+                       'current_route_path'],
+    'pyramid/location.py': ['lineage'],
+    'pyramid/config/routes.py': ['RoutesConfiguratorMixin.add_route'],
     'pyramid/traversal.py': ['quote_path_segment', '_join_path_tuple', 'ResourceURL', 'resource_path_tuple',
                              'split_path_info', 'decode_path_info',
                              '_resource_path_list'],
-    'pyramid/urldispatch.py': ['_compile_route', 'Route', 'RoutesMapper.get_route'],
-    'pyramid/config/views.py': ['StaticURLInfo.generate', 'StaticURLInfo.add'],
+    'pyramid/urldispatch.py': ['_compile_route', 'Route', 'RoutesMapper.get_route', 'RoutesMapper.connect',
+                               'RoutesMapper.__init__'],
+    'pyramid/config/views.py': ['StaticURLInfo.generate', 'StaticURLInfo.add', 'StaticURLInfo.__init__',
+                                'ViewsConfiguratorMixin.add_static_view', 'ViewsConfiguratorMixin._get_static_info'],
     'pyramid/util.py': ['is_nonstr_iter', 'bytes_', 'text_'],
 }
 
@@ -448,6 +455,13 @@ def add_history(rng, c):
     return c
 
 
+def maybe_via_function(rng, c):
+    """call the function forms of pyramid.url (route_url(route_name, request, ..), ..) instead of the request methods"""
+    if rng.random() < 0.12:
+        c['via'] = 'function'
+    return c
+
+
 def gen_history_case(rng):
     c = rng.choice([gen_route_case, gen_route_case, gen_resource_case, gen_current_case, gen_static_case])(rng)
     if rng.random() < 0.7:
@@ -522,15 +536,15 @@ def generate(rng, tier, n):
     for i in range(n - nq):
         r = rng.random()
         if r < 0.40:
-            yield gen_route_case(rng)
+            yield maybe_via_function(rng, gen_route_case(rng))
         elif r < 0.42:
             yield gen_route_case(rng, ipv6=True)
         elif r < 0.57:
-            yield gen_resource_case(rng)
+            yield maybe_via_function(rng, gen_resource_case(rng))
         elif r < 0.67:
-            yield gen_static_case(rng)
+            yield maybe_via_function(rng, gen_static_case(rng))
         elif r < 0.80:
-            yield gen_current_case(rng)
+            yield maybe_via_function(rng, gen_current_case(rng))
         elif r < 0.815:
             yield gen_history_case(rng)
         elif r < 0.83:
@@ -695,6 +709,8 @@ def valid(case):
         if not _query_ok(ov['query']) or not (ov['anchor'] is None or _pval_ok(ov['anchor'])):
             return False
         if not all(_query_ok(q) and q is not None for q in case.get('warm_q', [])):
+            return False
+        if case.get('via', 'method') not in ('method', 'function'):
             return False
         for pe in case.get('pre_envs', []):
             if not (isinstance(pe, dict) and all(isinstance(pe.get(f), str) for f in ('scheme', 'server_name', 'server_port', 'script_name'))
@@ -1166,13 +1182,20 @@ def run_impl(case):
 
 
 def _observe(case, req, cfg, h, ov, els):
+    fn = case.get('via') == 'function'
+    if fn:
+        import pyramid.url as PU
     if h == 'route':
         def args():
             kw = {k: _py_kwval(v) for k, v in case['kw']}
             kw.update(_ov_kwargs(ov, '_'))
             return kw
-        u = _call(lambda: req.route_url(case['route_name'], *els, **args()))
-        p = _call(lambda: req.route_path(case['route_name'], *els, **args()))
+        if fn:
+            u = _call(lambda: PU.route_url(case['route_name'], req, *els, **args()))
+            p = _call(lambda: PU.route_path(case['route_name'], req, *els, **args()))
+        else:
+            u = _call(lambda: req.route_url(case['route_name'], *els, **args()))
+            p = _call(lambda: req.route_path(case['route_name'], *els, **args()))
     elif h == 'resource':
         ob = _Res('', None)
         for nm in case['names']:
@@ -1190,15 +1213,19 @@ def _observe(case, req, cfg, h, ov, els):
                 if rn['kw'] is not None:
                     kw['route_kw'] = {k: _py_kwval(v) for k, v in rn['kw']}
             return kw
-        u = _call(lambda: req.resource_url(ob, *els, **args()))
-        p = _call(lambda: req.resource_path(ob, *els, **args()))
+        u = _call((lambda: PU.resource_url(ob, req, *els, **args())) if fn else (lambda: req.resource_url(ob, *els, **args())))
+        p = _call(lambda: req.resource_path(ob, *els, **args()))       # pyramid.url has no resource_path function
     elif h == 'static':
         def args():
             kw = {k: _py_kwval(v) for k, v in case['kw']}
             kw.update(_ov_kwargs(ov, '_'))
             return kw
-        u = _call(lambda: req.static_url(case['path'], **args()))
-        p = _call(lambda: req.static_path(case['path'], **args()))
+        if fn:
+            u = _call(lambda: PU.static_url(case['path'], req, **args()))
+            p = _call(lambda: PU.static_path(case['path'], req, **args()))
+        else:
+            u = _call(lambda: req.static_url(case['path'], **args()))
+            p = _call(lambda: req.static_path(case['path'], **args()))
     else:
         mapper = cfg.get_routes_mapper()
         if case['matched'] is not None:
@@ -1213,8 +1240,12 @@ def _observe(case, req, cfg, h, ov, els):
             if case['cur_route_name'] is not None:
                 kw['_route_name'] = case['cur_route_name']
             return kw
-        u = _call(lambda: req.current_route_url(*els, **args()))
-        p = _call(lambda: req.current_route_path(*els, **args()))
+        if fn:
+            u = _call(lambda: PU.current_route_url(req, *els, **args()))
+            p = _call(lambda: PU.current_route_path(req, *els, **args()))
+        else:
+            u = _call(lambda: req.current_route_url(*els, **args()))
+            p = _call(lambda: req.current_route_path(*els, **args()))
     return u, p
 
 
@@ -1479,6 +1510,8 @@ def kinds(case, obs):
         out.append('warm-query')
     if case.get('pre_envs'):
         out.append('request-history')
+    if case.get('via') == 'function':
+        out.append('via-module-functions')
     if ov['query'] is not None and ov['query'][0] != 's' and any(
             k[0] == 'n' or (v[0] == 'v' and v[1][0] == 'n') or (v[0] == 'q' and any(x[0] in 'no' for x in v[1]))
             for k, v in ov['query'][1]):
